@@ -423,3 +423,81 @@ func (p *Prog) onAllReturns(fn *ssa.Function, pred func(*ssa.Return) bool) bool 
 	})
 	return ok && n > 0
 }
+
+// noGoroutineForRefusedPipe: a protocol's AddPipe starts the per-pipe goroutines only on the
+// path on which it accepts the pipe.  The core calls RemovePipe (which is what stops those
+// goroutines) only for pipes whose AddPipe returned nil: a goroutine started before AddPipe
+// returns ErrClosed / ErrProtoState is never told to stop.
+func noGoroutineForRefusedPipe(p *Prog, r *Report, R string) {
+	r.Describe(R, "AddPipe of every protocol starts per-pipe goroutines only on the accepting path: no `go` statement is followed by an error return (the core never calls RemovePipe for a refused pipe, so nothing would stop them)")
+	n := 0
+	for _, fn := range p.Funcs {
+		rel, _ := p.FuncRel(fn)
+		if !strings.HasPrefix(rel, "protocol/") || fn.Name() != "AddPipe" || fn.Signature.Recv() == nil || strings.HasSuffix(p.Fset.Position(fn.Pos()).Filename, "_test.go") {
+			continue
+		}
+		EachInstr(fn, func(in ssa.Instruction) {
+			g, ok := in.(*ssa.Go)
+			if !ok {
+				return
+			}
+			n++
+			bad := ""
+			seen := map[*ssa.BasicBlock]bool{}
+			var walk func(b *ssa.BasicBlock, i int)
+			walk = func(b *ssa.BasicBlock, i int) {
+				for ; i < len(b.Instrs); i++ {
+					ret, isRet := b.Instrs[i].(*ssa.Return)
+					if !isRet || b == fn.Recover {
+						continue
+					}
+					for _, way := range returnWays(ret) {
+						if c, isC := way.(*ssa.Const); !isC || c.Value != nil {
+							bad = p.InstrPos(ret)
+						}
+					}
+				}
+				for _, s := range b.Succs {
+					if !seen[s] {
+						seen[s] = true
+						walk(s, 0)
+					}
+				}
+			}
+			walk(g.Block(), instrIndex(g)+1)
+			r.Check(bad == "", R, p.FuncName(fn)+"/go#"+CalleeName(&g.Call), p.InstrPos(g), "started only when the pipe is accepted", "the goroutine is started on a path on which AddPipe can still refuse the pipe (error return at "+bad+"): the core never calls RemovePipe for a refused pipe, so the goroutine is never told to stop and outlives the socket")
+		})
+	}
+	r.Count("protocol.addpipe_goroutines", n)
+}
+
+// returnWays: the values a single-result return can carry (a merge split into its ways).
+func returnWays(ret *ssa.Return) []ssa.Value {
+	if len(ret.Results) == 0 {
+		return nil
+	}
+	v := resolveSpill(ret.Results[len(ret.Results)-1], ret)
+	var out []ssa.Value
+	seen := map[ssa.Value]bool{}
+	var rec func(v ssa.Value)
+	rec = func(v ssa.Value) {
+		if seen[v] {
+			return
+		}
+		seen[v] = true
+		switch x := v.(type) {
+		case *ssa.Phi:
+			for _, e := range x.Edges {
+				rec(e)
+			}
+		case *ssa.MakeInterface:
+			rec(x.X)
+		case *ssa.ChangeInterface:
+			rec(x.X)
+		default:
+			out = append(out, v)
+		}
+	}
+	rec(v)
+	return out
+}
